@@ -6,6 +6,7 @@ mod gen;
 mod observer;
 mod problem;
 mod rec_ipm;
+mod rec_more;
 
 use rand::rngs::StdRng;
 use rand::{Rng, SeedableRng};
@@ -63,6 +64,13 @@ fn main() {
     match args.cmd.as_str() {
         "ipm" => cmd_ipm(&args),
         "ipm-replay" => cmd_ipm_replay(&args),
+        "budget" => cmd_budget(&args),
+        "shapes" => cmd_shapes(&args),
+        "dist" => cmd_dist(&args),
+        "print" => cmd_print(&args),
+        "timelimit" => cmd_timelimit(&args),
+        "budget-replay" => cmd_budget_replay(&args),
+        "print-replay" => cmd_print_replay(&args),
         _ => {
             eprintln!("unknown command {}", args.cmd);
             std::process::exit(2);
@@ -86,31 +94,14 @@ fn cmd_ipm(args: &Args) {
     let mut iters = vec![];
     let mut nontrivial = std::collections::HashSet::new();
     for run in 0..count {
-        let mut o = gen::GenOpts { nmax, ..Default::default() };
-        let fam = if family == "mixed" {
-            ["feasible", "feasible", "pinf", "dinf", "badscale"][rng.gen_range(0..5)]
-        } else {
-            family.as_str()
-        };
-        let mut p = match fam {
-            "feasible" => gen::planted_feasible(&mut rng, &o),
-            "badscale" => {
-                o.bad_scaling = 1.0;
-                o.scale_exp = rng.gen_range(2..=6) as f64;
-                if rng.gen::<f64>() < 0.5 { gen::planted_feasible(&mut rng, &o) }
-                else if rng.gen::<f64>() < 0.5 { gen::planted_pinf(&mut rng, &o) } else { gen::planted_dinf(&mut rng, &o) }
-            }
-            "pinf" => gen::planted_pinf(&mut rng, &o),
-            "dinf" => gen::planted_dinf(&mut rng, &o),
-            _ => panic!("family"),
-        };
+        let mut p = gen_family(&mut rng, &family, nmax);
         if args.num("settings", 1) != 0 {
             p.settings = gen::random_settings(&mut rng, p.is_symmetric());
         }
         if capture {
             p.tag.push_str("+print");
         }
-        let opts = rec_ipm::RunOpts { capture_print: capture, detail: 0, ..Default::default() };
+        let opts = rec_ipm::RunOpts { capture_print: capture, detail: args.num("detail", 0) as usize, ..Default::default() };
         let out = rec_ipm::run_ipm(run, &p, &opts);
         cases.push(json!({"run": run, "problem": p}));
         match (&out.result, &out.panic) {
@@ -143,11 +134,210 @@ fn cmd_ipm_replay(args: &Args) {
     let v: Value = serde_json::from_str(text.lines().next().unwrap()).unwrap();
     let p: problem::Problem = serde_json::from_value(v["problem"].clone()).unwrap();
     let capture = p.tag.contains("+print");
-    let opts = rec_ipm::RunOpts { capture_print: capture, ..Default::default() };
+    let script: Vec<(String, u32, f64)> = v.get("script").and_then(|s| serde_json::from_value(s.clone()).ok()).unwrap_or_default();
+    let detail = v.get("detail").and_then(|d| d.as_u64()).unwrap_or(64) as usize;
+    let opts = rec_ipm::RunOpts { capture_print: capture, script, detail, ..Default::default() };
     let out = rec_ipm::run_ipm(0, &p, &opts);
     let mut lines = out.lines;
     if let Some(m) = out.panic {
         lines.push(json!({"ev": "Panic", "run": 0, "msg": m}));
     }
     write_lines(&args.get("out", "trace.ndjson"), &lines);
+}
+
+fn gen_family(rng: &mut StdRng, family: &str, nmax: usize) -> problem::Problem {
+    let mut o = gen::GenOpts { nmax, ..Default::default() };
+    let fam = if family == "mixed" { ["feasible", "feasible", "pinf", "dinf", "badscale", "infb", "objscale"][rng.gen_range(0..7)] } else { family };
+    match fam {
+        "infb" => {
+            o.inf_rows = 0.3;
+            o.max_cones = 3;
+            let mut p = gen::planted_feasible(rng, &o);
+            // make sure there is a nonnegative cone to carry infinite bounds
+            if !p.tag.contains("+infb") { o.allow_nonsym = false; o.psd_max = 0; o.inf_rows = 0.6; p = gen::planted_feasible(rng, &o); }
+            p
+        }
+        "extreme" => {
+            // extreme but finite magnitudes on symmetric-cone problems
+            o.allow_nonsym = false;
+            o.psd_max = 0;
+            let mut p = gen::planted_feasible(rng, &o);
+            let e = 10f64.powf(gen::unif(rng, 14.0, 20.0));
+            match rng.gen_range(0..3) {
+                0 => for v in p.q.iter_mut() { *v *= e; },
+                1 => for v in p.b.iter_mut() { *v *= -e; },
+                _ => { let k = rng.gen_range(0..p.b.len().max(1)); if !p.b.is_empty() { p.b[k] = -e; } }
+            }
+            p.tag = "extreme".into();
+            p
+        }
+        "socsym" => {
+            // symmetric problems rich in second-order cones on both sides of the sparse-expansion threshold
+            o.allow_nonsym = false;
+            o.psd_max = 0;
+            o.soc_max = 9;
+            gen::planted_feasible(rng, &o)
+        }
+        "objscale" => {
+            o.obj_scale_exp = 8.0;
+            gen::planted_feasible(rng, &o)
+        }
+        "feasible" => gen::planted_feasible(rng, &o),
+        "badscale" => {
+            o.bad_scaling = 1.0;
+            o.scale_exp = rng.gen_range(2..=6) as f64;
+            if rng.gen::<f64>() < 0.5 { gen::planted_feasible(rng, &o) }
+            else if rng.gen::<f64>() < 0.5 { gen::planted_pinf(rng, &o) } else { gen::planted_dinf(rng, &o) }
+        }
+        "pinf" => gen::planted_pinf(rng, &o),
+        "dinf" => gen::planted_dinf(rng, &o),
+        _ => panic!("family"),
+    }
+}
+
+/// Budget independence traces (C07): long run vs runs with max_iter = k.
+fn cmd_budget(args: &Args) {
+    let seed = args.num("seed", 1);
+    let count = args.num("count", 50) as usize;
+    let kmax = args.num("kmax", 12) as u32;
+    let mut rng = StdRng::seed_from_u64(seed);
+    let mut lines = vec![];
+    let mut cases = vec![];
+    let mut shorts = 0;
+    for run in 0..count {
+        let fam = if run % 3 == 2 && run % 2 == 0 { "socsym".to_string() } else { args.get("family", "mixed") };
+        let mut p = gen_family(&mut rng, &fam, args.num("nmax", 8) as usize);
+        p.settings = gen::random_settings(&mut rng, p.is_symmetric());
+        if let Some(m) = p.settings.as_object_mut() { m.remove("max_iter"); }
+        if run % 3 == 2 {
+            // same-object history: solve; solve; lower the budget; solve
+            let k = rng.gen_range(0..=kmax.min(8));
+            let l = rec_ipm::resolve_lines(run, &p, k);
+            shorts += l.len().saturating_sub(1);
+            lines.extend(l);
+            cases.push(json!({"run": run, "problem": p, "kmax": kmax, "resolve_k": k}));
+            continue;
+        }
+        let (l, _) = rec_ipm::budget_lines(run, &p, kmax);
+        shorts += l.len().saturating_sub(1);
+        lines.extend(l);
+        cases.push(json!({"run": run, "problem": p, "kmax": kmax}));
+    }
+    write_lines(&args.get("out", "budget.ndjson"), &lines);
+    write_lines(&args.get("cases", "budget.cases.ndjson"), &cases);
+    let meta = json!({"runs": count, "events": lines.len(), "short_runs": shorts});
+    std::fs::write(args.get("meta", "meta.json"), serde_json::to_string(&meta).unwrap()).unwrap();
+    println!("{}", meta);
+}
+
+/// C04: degenerate shapes under a watchdog + dimension-check cases
+fn cmd_shapes(args: &Args) {
+    let out = args.get("out", "shapes.ndjson");
+    let wd = rec_more::Watchdog::start(format!("{}.hang.json", out), args.num("hang_secs", 60));
+    let (lines, cases, st) = rec_more::shapes(args.num("seed", 1), args.num("sample", 1500) as usize,
+        args.num("maxlen", 3) as usize, args.num("maxm", 5) as usize, &wd);
+    write_lines(&out, &lines);
+    write_lines(&args.get("cases", "shapes.cases.ndjson"), &cases);
+    let dims = rec_more::dimension_cases();
+    write_lines(&args.get("dims", "dims.ndjson"), &dims);
+    let meta = json!({"runs": st.runs, "panics": st.panics, "distinct_nontrivial": st.distinct.len(),
+                      "status_hist": st.status_hist, "events": lines.len(), "dim_cases": dims.len()});
+    std::fs::write(args.get("meta", "meta.json"), serde_json::to_string(&meta).unwrap()).unwrap();
+    println!("{}", meta);
+}
+
+/// C06: family G, full traces + per-run summary for the distributional postcondition
+fn cmd_dist(args: &Args) {
+    let (lines, cases, summary) = rec_more::dist_lines(args.num("seed", 1), args.num("count", 2000) as usize);
+    write_lines(&args.get("out", "g.ndjson"), &lines);
+    write_lines(&args.get("cases", "g.cases.ndjson"), &cases);
+    write_lines(&args.get("summary", "g.summary.ndjson"), &summary);
+    println!("{}", json!({"runs": summary.len(), "events": lines.len()}));
+}
+
+/// C20: print routing cases
+fn cmd_print(args: &Args) {
+    let seed = args.num("seed", 1);
+    let count = args.num("count", 100) as usize;
+    let mut rng = StdRng::seed_from_u64(seed);
+    let dir = args.get("dir", "/tmp");
+    let mut lines = vec![];
+    let mut cases = vec![];
+    for run in 0..count {
+        let mut p = gen_family(&mut rng, &args.get("family", "mixed"), args.num("nmax", 8) as usize);
+        p.settings = gen::random_settings(&mut rng, p.is_symmetric());
+        // infinite bounds so that the presolve line is exercised
+        if rng.gen::<f64>() < 0.3 {
+            let mut off = 0;
+            for c in &p.cones {
+                if let problem::ConeSpec::Nonneg(k) = c {
+                    if *k > 1 { p.b[off] = 1e30; }
+                }
+                off += c.numel();
+            }
+        }
+        lines.push(rec_more::print_case(run, &p, &dir));
+        cases.push(json!({"run": run, "problem": p}));
+    }
+    write_lines(&args.get("out", "print.ndjson"), &lines);
+    write_lines(&args.get("cases", "print.cases.ndjson"), &cases);
+    println!("{}", json!({"runs": count}));
+}
+
+/// C04: time limit reached in the middle of a run (sleep injected at a chosen pass)
+fn cmd_timelimit(args: &Args) {
+    let seed = args.num("seed", 1);
+    let count = args.num("count", 30) as usize;
+    let mut rng = StdRng::seed_from_u64(seed);
+    let mut lines = vec![];
+    let mut cases = vec![];
+    let mut hist: HashMap<String, usize> = HashMap::new();
+    for run in 0..count {
+        let o = gen::GenOpts { nmax: 8, ..Default::default() };
+        let mut p = gen::planted_feasible(&mut rng, &o);
+        let k = rng.gen_range(1..=3u32);
+        p.settings = json!({"time_limit": 0.05, "tol_feas": 1e-14, "tol_gap_abs": 1e-14, "tol_gap_rel": 1e-14});
+        let script = vec![("sleep".to_string(), k, 120.0)];
+        let opts = rec_ipm::RunOpts { script: script.clone(), ..Default::default() };
+        let out = rec_ipm::run_ipm(run, &p, &opts);
+        cases.push(json!({"run": run, "problem": p, "script": script}));
+        match (&out.result, &out.panic) {
+            (Some(r), _) => {
+                *hist.entry(rec_ipm::STATUS_NAMES[r.status].to_string()).or_default() += 1;
+                lines.extend(out.lines);
+            }
+            (None, Some(m)) => lines.push(json!({"ev": "Panic", "run": run, "msg": m})),
+            _ => unreachable!(),
+        }
+    }
+    write_lines(&args.get("out", "tl.ndjson"), &lines);
+    write_lines(&args.get("cases", "tl.cases.ndjson"), &cases);
+    let meta = json!({"runs": count, "status_hist": hist});
+    std::fs::write(args.get("meta", "meta.json"), serde_json::to_string(&meta).unwrap()).unwrap();
+    println!("{}", meta);
+}
+
+fn load_case(args: &Args) -> Value {
+    let text = std::fs::read_to_string(args.get("case", "case.json")).expect("case file");
+    serde_json::from_str(text.lines().next().unwrap()).unwrap()
+}
+
+fn cmd_budget_replay(args: &Args) {
+    let v = load_case(args);
+    let p: problem::Problem = serde_json::from_value(v["problem"].clone()).unwrap();
+    let kmax = v.get("kmax").and_then(|k| k.as_u64()).unwrap_or(12) as u32;
+    if let Some(k) = v.get("resolve_k").and_then(|k| k.as_u64()) {
+        let l = rec_ipm::resolve_lines(v["run"].as_u64().unwrap_or(0) as usize, &p, k as u32);
+        write_lines(&args.get("out", "budget.ndjson"), &l);
+        return;
+    }
+    let (l, _) = rec_ipm::budget_lines(v["run"].as_u64().unwrap_or(0) as usize, &p, kmax);
+    write_lines(&args.get("out", "budget.ndjson"), &l);
+}
+
+fn cmd_print_replay(args: &Args) {
+    let v = load_case(args);
+    let p: problem::Problem = serde_json::from_value(v["problem"].clone()).unwrap();
+    let l = vec![rec_more::print_case(v["run"].as_u64().unwrap_or(0) as usize, &p, &args.get("dir", "/tmp"))];
+    write_lines(&args.get("out", "print.ndjson"), &l);
 }
